@@ -2,6 +2,7 @@ package engine
 
 import (
 	"bytes"
+	"encoding/xml"
 	"fmt"
 	"net/url"
 	"sort"
@@ -351,6 +352,18 @@ func (r *Run) opHostile(op *Op) {
 	}
 	r.noPanic(resp, "request with a hostile key")
 	r.logf("  -> %s", resp.String())
+	if op.Sub == "list" && resp.Status == 200 {
+		// a listing never reads outside the addressed bucket
+		var x xListResult
+		if xml.Unmarshal(resp.Body, &x) == nil {
+			mb := r.M.Buckets[op.B]
+			for _, c := range x.Contents {
+				if mb == nil || mb.Keys[c.Key].Live() == nil || !strings.HasPrefix(c.Key, op.Key) {
+					r.fail("frame.others", fmt.Sprintf("a listing with a %s prefix returns entries that are not keys of the addressed bucket %s", keyClass(op.Key), r.bctx()), "keys of "+op.B+" starting with "+strconv.Quote(op.Key), c.Key)
+				}
+			}
+		}
+	}
 	r.stats.Routes["hostile:"+op.Sub+":"+keyClass(op.Key)]++
 
 	if isInternalName(r.Plan.Config, op.B) {
